@@ -6,7 +6,7 @@ from ..vm import Prog, expect_ok, expect_exc
 
 ID = "C16"
 LEVEL = "exploration"
-BUDGET = {"quick": 2500, "thorough": 250000}
+BUDGET = {"quick": 2500, "thorough": 750000}
 RULE = ("case = op list (assign, concat, append, resize 0/<len/==len/>len, rem, mem, print_to at a position, cmp/eq/hash "
         "against generated others) over one heap String; operands are derived from the CURRENT abstract value: empty, equal "
         "value, prefix, middle, suffix, overlapping repeats, absent, longer than the target, literal. After every op c_str, "
